@@ -5,12 +5,12 @@
      pass the coalescer's gates.
    The unrestricted statement is refuted (Examples.gro_lossless_refuted: a zero-length datagram
    is overtaken by a later datagram of its flow). *)
-From WG Require Import Base.Prelude Gen.Constants Gro.Bytes Gro.Model Gro.KernelSpec Gro.Spec Gro.Proofs Gro.Csum Gro.Headers Gro.HeadersTcp Gro.Lossless Gro.Holds Gro.Order Gro.Examples.
+From WG Require Import Base.Prelude Gen.Constants Gro.Bytes Gro.Model Gro.KernelSpec Gro.Spec Gro.Proofs Gro.Csum Gro.Headers Gro.HeadersTcp Gro.Lossless Gro.Holds Gro.Order Gro.CsumKept Gro.Examples.
 From WG Require Gro.Check.
 Local Open Scope N_scope.
 
 Definition holdsb_restricted (inp : list buf) (tw : list N) (out : list buf) : bool :=
-  holdsb_core inp tw out && udp_order_gen Check.keep_eligible inp tw out.
+  holdsb_core inp tw out && udp_order_gen Check.keep_eligible inp tw out && csum_kept_ok inp tw out.
 
 Lemma preb_facts offset bufs : preb offset bufs = true -> VH <= offset /\ (forall b, In b bufs -> b_pkt b <> []).
 Proof.
@@ -25,7 +25,8 @@ Theorem gro_holdsb_partial : forall (canUDP : bool) (offset : N) (bufs : list bu
 Proof.
   intros udp off inp Hpre Hbytes s. destruct (preb_facts _ _ Hpre) as [Hoff Hne].
   pose proof (gro_no_error udp off inp Hoff Hne) as He. fold s in He. split; [exact He|].
-  unfold holdsb_restricted. apply andb_true_iff. split; [apply (gro_holds_core udp off inp Hbytes He)|apply (gro_udp_order_restricted udp off inp He)].
+  unfold holdsb_restricted. apply andb_true_iff. split; [apply andb_true_iff; split|];
+    [apply (gro_holds_core udp off inp Hbytes He)|apply (gro_udp_order_restricted udp off inp He)|apply (gro_csum_kept udp off inp Hbytes He)].
 Qed.
 Print Assumptions gro_holdsb_partial.
 
@@ -69,7 +70,7 @@ Proof.
   intros udp off inp Hpre Hbytes Hall s.
   destruct (gro_holdsb_partial udp off inp Hpre Hbytes) as [He Hr]. fold s in He, Hr. split; [exact He|].
   rewrite forallb_forall in Hall.
-  unfold holdsb_restricted in Hr. apply andb_true_iff in Hr as [Hc Ho].
+  unfold holdsb_restricted in Hr. apply andb_true_iff in Hr as [Hr H6]. apply andb_true_iff in Hr as [Hc Ho].
   assert (Ho' : udp_order_ok inp (s_tw s) (s_bufs s) = true).
   { unfold udp_order_ok. unfold udp_order_gen in *.
     rewrite (filter_all Check.keep_eligible (map b_pkt inp)) in Ho by (intros x Hx; apply in_map_iff in Hx as [b [<- Hb]]; apply Hall; exact Hb).
@@ -77,7 +78,7 @@ Proof.
     rewrite !(filter_all (fun _ => true)) by reflexivity. exact Ho. }
   rewrite holdsb_clauses. unfold holdsb_core in Hc.
   apply andb_true_iff in Hc as [Hc H4]. apply andb_true_iff in Hc as [Hc H3]. apply andb_true_iff in Hc as [H1 H2].
-  rewrite H1, H2, H3, H4, Ho'. reflexivity.
+  rewrite H1, H2, H3, H4, Ho', H6. reflexivity.
 Qed.
 Print Assumptions gro_holdsb_eligible_batches.
 
